@@ -221,28 +221,33 @@ def r19_3(ctx):
     fl = Flow(c.node, resolver=Resolver(c.node)).run()
     adds = [n for n in ast.walk(c.node) if isinstance(n, ast.Subscript) and ast.unparse(n.value) == "local_deprecated" and isinstance(n.ctx, ast.Load)]
     construct = "check_deprecated_options/adds the local set of the file's own nearest project"
-    pr_asg = [n for n in ast.walk(c.node) if isinstance(n, ast.Assign) and ast.unparse(n.targets[0]) == "project_root"]
-    fd_asg = [n for n in ast.walk(c.node) if isinstance(n, ast.Assign) and ast.unparse(n.targets[0]) == "file_dir"]
+    from .common import expand_locals
+    fparam = c.node.args.args[0].arg
+    cache_param = [a.arg for a in c.node.args.args if "cache" in a.arg]
+    want_root = f"_find_project_root(os.path.dirname(os.path.abspath({fparam})), {cache_param[0] if cache_param else '?'})"
     msgs = []
-    if not pr_asg or ast.unparse(pr_asg[0].value) != "_find_project_root(file_dir, project_root_cache)":
-        msgs.append("project_root is not _find_project_root(file_dir, cache)")
-    if not fd_asg or ast.unparse(fd_asg[0].value) != "os.path.dirname(os.path.abspath(file_full_path))":
-        msgs.append("file_dir is not the directory of the checked file")
     if not adds:
         msgs.append("local set never used")
     for a in adds:
-        if ast.unparse(a.slice) != "project_root":
-            msgs.append(f"local set indexed by {ast.unparse(a.slice)}")
-        gs = fl.guards_at(a) or set()
-        if ("project_root is None", False) not in gs or ("project_root == abs_idf_path", False) not in gs:
+        got = expand_locals(c.node, a.slice)
+        if got != want_root:
+            msgs.append(f"local set indexed by `{got}`, not by the nearest project of the checked file's own directory (`{want_root}`)")
+        gs = {(expand_locals(c.node, ast.parse(k, mode='eval').body) if _parses(k) else k, p) for k, p in (fl.guards_at(a) or set())}
+        if (f"{want_root} is None", False) not in gs or (f"{want_root} == abs_idf_path", False) not in gs:
             msgs.append(f"local set used under {sorted(gs)}")
     (ctx.bad(construct, "; ".join(msgs), c.loc()) if msgs else ctx.ok(construct, c.loc(adds[0])))
     construct = "check_deprecated_options/verdict = effective set intersected with the options of the checked file"
-    used = [n for n in ast.walk(c.node) if isinstance(n, ast.Assign) and ast.unparse(n.targets[0]) == "used_options"]
     inter = [n for n in ast.walk(c.node) if isinstance(n, ast.Call) and isinstance(n.func, ast.Attribute) and n.func.attr == "intersection"]
-    ok = bool(used) and ast.unparse(used[0].value).replace('"', "'") == "extract_lhs_from_file(file_full_path, '=')" and bool(inter) \
-        and ast.unparse(inter[0].args[0]) == "used_options"
+    ok = bool(inter) and expand_locals(c.node, inter[0].args[0]) == f"extract_lhs_from_file({fparam}, '=')"
     (ctx.ok(construct, c.loc()) if ok else ctx.bad(construct, "the verdict is no longer computed from the checked file's own assignments", c.loc()))
+
+
+def _parses(k: str) -> bool:
+    try:
+        ast.parse(k, mode="eval")
+        return True
+    except SyntaxError:
+        return False
 
 
 def r19_4(ctx):
